@@ -239,10 +239,15 @@ harnesses! {
     #[kani::proof] #[kani::unwind(10)] cmp_4_3 => h_cmp::<4, 3, _>;
     #[kani::proof] #[kani::unwind(12)] cmp_6_5 => h_cmp::<6, 5, _>;
     #[kani::proof] #[kani::unwind(12)] cmp_6_6 => h_cmp::<6, 6, _>;
+    #[kani::proof] #[kani::unwind(14)] cmp_8_7 => h_cmp::<8, 7, _>;
+    #[kani::proof] #[kani::unwind(14)] cmp_8_8 => h_cmp::<8, 8, _>;
+    #[kani::proof] #[kani::unwind(18)] cmp_12_11 => h_cmp::<12, 11, _>;
     #[kani::proof] #[kani::unwind(8)] bisect_1 => h_bisect::<1, 2, _>;
     #[kani::proof] #[kani::unwind(8)] bisect_2 => h_bisect::<2, 4, _>;
     #[kani::proof] #[kani::unwind(8)] bisect_3 => h_bisect::<3, 6, _>;
     #[kani::proof] #[kani::unwind(8)] bisect_4 => h_bisect::<4, 8, _>;
+    #[kani::proof] #[kani::unwind(9)] bisect_5 => h_bisect::<5, 10, _>;
+    #[kani::proof] #[kani::unwind(10)] bisect_6 => h_bisect::<6, 12, _>;
     #[kani::proof] #[kani::unwind(9)] mode_roundtrip => h_mode_roundtrip::<_>;
     #[kani::proof] #[kani::unwind(23)] #[kani::stub(std::arch::x86_64::__cpuid_count, no_cpuid)] #[kani::stub(std::arch::x86_64::__cpuid, no_cpuid1)]
     #[kani::stub(<std::io::Error as std::convert::From<crate::tree::write::Error>>::from, stub_tree_err)] tree_size_1 => h_tree_size::<1, 2, _>;
